@@ -105,6 +105,27 @@ def _compare(name, r, exp, info, M, pts, note=""):
                         f"A.x per point {lhs if nd == 3 else lhs[0] if nd == 2 else lhs[0][0]} vs b {b}")
 
 
+def _pts_dtype(np, pts, case):
+    """points arrive as int64, or as the narrowest signed integer dtype that holds them (callers slice them out of int16
+    / int32 arrays); the classification must not depend on that"""
+    flat = []
+
+    def rec(x):
+        if isinstance(x, list):
+            for y in x:
+                rec(y)
+        else:
+            flat.append(int(x))
+    rec(pts)
+    if (len(flat) + sum(abs(v) for v in flat)) % 2 == 0:
+        return np.int64
+    m = max([abs(v) for v in flat] + [0])
+    for t in (np.int8, np.int16, np.int32):
+        if m <= np.iinfo(t).max:
+            return t
+    return np.int64
+
+
 def check_points(case, ev):
     puan, pnd, np = _mods()
     M, pts = case["m"], case["pts"]
@@ -113,7 +134,7 @@ def check_points(case, ev):
     alias = bool(case.get("alias"))
     for name in ("ineqs_satisfied", "separable", "ineq_separate_points"):
         P = call(_poly, case, what="ge_polyhedron construction")
-        X = np.array(pts, dtype=np.int64)
+        X = np.array(pts, dtype=_pts_dtype(np, pts, case))
         if alias and name != "ineqs_satisfied":
             r = call(getattr(pnd, name), P, X, what=f"puan.ndarray.{name}")
         else:
